@@ -11,6 +11,8 @@ Older replay files carry "opts": {exDisabled, …, allowed:[…]} and "explicit"
 structure Env where
   root : Json
   detach : List String
+  /-- the header objects whose construction (= validation, in the code) is in progress, by reference target -/
+  hdrStack : List String := []
 
 def objKVs (j : Json) : List (String × Json) := match j with | .obj kvs => kvs.toList | _ => []
 def field? (j : Json) (k : String) : Option Json :=
@@ -35,9 +37,12 @@ def valAttrs (j : Json) (ks : List String) : List (String × Val) :=
 
 def splitRef (r : String) : List String := (r.splitOn "/")
 
+/-- `#/a/b/c`: any pointer into the document (components, but also targets under an extension key) -/
 def resolve (env : Env) (r : String) : Option Json :=
   match splitRef r with
-  | ["#", "components", sect, name] => (field? env.root "components").bind (field? · sect) |>.bind (field? · name)
+  | "#" :: segs =>
+    segs.foldl (fun cur seg => cur.bind (fun j =>
+      field? j ((seg.replace "~1" "/").replace "~0" "~"))) (some env.root)
   | _ => none
 
 def withKey (key : String) (l : List (String × String)) : List (String × String) :=
@@ -115,7 +120,30 @@ partial def mkMediaType (env : Env) (key : String) (j : Json) : Doc :=
        let explode := match x.getObjVal? "explode" with | .ok (.bool b) => [("explode", if b then "true" else "false")] | _ => []
        .node .encoding { strs := withKey k (strAttrs x ["style"] ++ explode),
                          exts := unknownKeys x ["contentType", "headers", "style", "explode", "allowReserved"] }
-         (mapKids x "headers" "headers" (fun hk h => mkRef env .headerRef (mkParamLike env .header) hk h))))
+         (mapKids x "headers" "headers" (fun hk h => mkHeaderRef env hk h))))
+/-- a header position: like `mkRef`, but a reference to a header whose construction is in progress (the header
+occurs among the encoding headers of its own content) becomes the mark `again` instead of being expanded -/
+partial def mkHeaderRef (env : Env) (key : String) (j : Json) (visited : List String := []) : Doc :=
+  match j.getObjVal? "$ref" with
+  | .ok (.str r) =>
+    let sibs := ((objKVs j).map (·.1)).filter (fun k => k != "$ref" && k != "__origin__")
+    let unresolved : Doc := .node .headerRef { strs := withKey key [("ref", r)], sibs := sibs } []
+    let resolvedTo := fun (v : Doc) =>
+      Doc.node .headerRef { strs := withKey key [("ref", r)], sibs := sibs, flags := ["resolved"] } [("value", v)]
+    if env.detach.contains r then unresolved
+    else if env.hdrStack.contains r then resolvedTo (.node .header { flags := ["again"] } [])
+    else if visited.contains r || visited.length > 8 || env.hdrStack.length > 12 then unresolved   -- a cycle of references only
+    else match resolve env r with
+      | none => unresolved
+      | some t =>
+        -- a target that is itself a reference is followed; only a header OBJECT is put on the stack
+        let inner := match t.getObjVal? "$ref" with
+          | .ok (.str _) => mkHeaderRef env "" t (r :: visited)
+          | _ => mkHeaderRef { env with hdrStack := r :: env.hdrStack } "" t
+        match inner.kidsAt "value" with
+        | v :: _ => resolvedTo v
+        | [] => unresolved
+  | _ => .node .headerRef { strs := withKey key [], flags := ["resolved"] } [("value", mkParamLike env .header j)]
 partial def mkContent (env : Env) (j : Json) : Doc :=
   .node .content {} ((objKVs j).map (fun kv => ("mediaTypes", mkMediaType env kv.1 kv.2)))
 partial def mkParamLike (env : Env) (k : Kind) (j : Json) : Doc :=
@@ -141,7 +169,7 @@ def mkResponse (env : Env) (j : Json) : Doc :=
     { flags := flagIf (match j.getObjVal? "description" with | .ok (.str _) => true | _ => false) "hasDescription",
       exts := unknownKeys j ["description", "headers", "content", "links"] }
     ((match field? j "content" with | some c => [("content", mkContent env c)] | none => []) ++
-     mapKids j "headers" "headers" (fun k x => mkRef env .headerRef (mkParamLike env .header) k x) ++
+     mapKids j "headers" "headers" (fun k x => mkHeaderRef env k x) ++
      mapKids j "links" "links" (fun k x => mkRef env .linkRef mkLink k x))
 
 def mkRequestBody (env : Env) (j : Json) : Doc :=
@@ -210,7 +238,10 @@ def mkComponents (env : Env) (j : Json) : Doc :=
      mapKids j "parameters" "parameters" (fun k x => mkRef env .parameterRef (mkParamLike env .parameter) k x) ++
      mapKids j "requestBodies" "requestBodies" (fun k x => mkRef env .requestBodyRef (mkRequestBody env) k x) ++
      mapKids j "responses" "responses" (fun k x => mkRef env .responseRef (mkResponse env) k x) ++
-     mapKids j "headers" "headers" (fun k x => mkRef env .headerRef (mkParamLike env .header) k x) ++
+     mapKids j "headers" "headers" (fun k x =>
+       match x.getObjVal? "$ref" with
+       | .ok (.str _) => mkHeaderRef env k x
+       | _ => mkHeaderRef { env with hdrStack := ("#/components/headers/" ++ k) :: env.hdrStack } k x) ++
      mapKids j "securitySchemes" "securitySchemes" (fun k x => mkRef env .securitySchemeRef mkSecurityScheme k x) ++
      mapKids j "examples" "examples" (fun k x => mkRef env .exampleRef mkExample k x) ++
      mapKids j "links" "links" (fun k x => mkRef env .linkRef mkLink k x) ++
